@@ -22,6 +22,18 @@ impl Check for C01 {
             cfg.avoid_stmt_after_ret = false;
             cfg.avoid_unused_andor = false;
         }
+        if let Ok(off) = std::env::var("GEN_OFF") {
+            for f in off.split(',') {
+                match f {
+                    "recursion" => cfg.recursion = false,
+                    "higher_order" => cfg.higher_order = false,
+                    "closures" => cfg.closures = false,
+                    "methods" => cfg.methods = false,
+                    x if x.starts_with("fnx=") => cfg.max_fn_exprs = x[4..].parse().unwrap_or(7),
+                    _ => {}
+                }
+            }
+        }
         let prog = Gen::new(&mut t, cfg).program();
         let mut plan = SurfacePlan::default();
         plan.annot_default = (t.chance(1, 4), true, true);
